@@ -301,3 +301,146 @@ func c12NilableResults(c *Ctx) {
 	c.sites += nSites
 	c.check(nSites >= 5 && nUses >= 3, "nilable-results/sites", "", fmt.Sprintf("%d call sites of functions that may return nil without error, %d direct uses, all on the non-nil edge", nSites, nUses), fmt.Sprintf("only %d call sites / %d uses of nil-able results found", nSites, nUses))
 }
+
+// c12NilAfterCall: a pointer field that a function of this package may set to nil is not dereferenced after a call to that
+// function without a new nil test or a new assignment. (A helper extracted from a loop body keeps its "give up and drop
+// the buffer" exit; the caller goes on to use the buffer.)
+func c12NilAfterCall(c *Ctx) {
+	type fkey struct {
+		st  string
+		idx int
+	}
+	fieldKey := func(fa *ssa.FieldAddr) fkey {
+		pt, _ := fa.X.Type().Underlying().(*types.Pointer)
+		if pt == nil {
+			return fkey{}
+		}
+		return fkey{pt.Elem().String(), fa.Field}
+	}
+	// direct nil stores per function
+	direct := map[*ssa.Function]map[fkey]bool{}
+	for _, f := range c.AllFns {
+		eachInstr(f, func(in ssa.Instruction) {
+			st, ok := in.(*ssa.Store)
+			if !ok || !isNilConst(st.Val) {
+				return
+			}
+			fa, ok := st.Addr.(*ssa.FieldAddr)
+			if !ok {
+				return
+			}
+			if _, isPtr := st.Val.Type().Underlying().(*types.Pointer); !isPtr {
+				return
+			}
+			if direct[f] == nil {
+				direct[f] = map[fkey]bool{}
+			}
+			direct[f][fieldKey(fa)] = true
+		})
+	}
+	var mayNil func(f *ssa.Function, k fkey, depth int, seen map[*ssa.Function]bool) bool
+	mayNil = func(f *ssa.Function, k fkey, depth int, seen map[*ssa.Function]bool) bool {
+		if f == nil || depth > 2 || seen[f] {
+			return false
+		}
+		seen[f] = true
+		if direct[f][k] {
+			return true
+		}
+		found := false
+		eachInstr(f, func(in ssa.Instruction) {
+			if ci, ok := in.(ssa.CallInstruction); ok && !found {
+				if callee := ci.Common().StaticCallee(); callee != nil && c.inPkg(callee) && mayNil(callee, k, depth+1, seen) {
+					found = true
+				}
+			}
+		})
+		return found
+	}
+	nCalls, nBad := 0, 0
+	for _, f := range c.AllFns {
+		if !c.inPkg(f) {
+			continue
+		}
+		fname := c.fnName(f)
+		// dereferencing uses of pointer fields in f: a load of the field used as receiver of a method that needs it non-nil,
+		// or as base of a field access
+		type use struct {
+			in ssa.Instruction
+			fa *ssa.FieldAddr
+		}
+		var uses []use
+		eachInstr(f, func(in ssa.Instruction) {
+			v := derefOperand(in)
+			if ci, ok := in.(ssa.CallInstruction); ok && v == nil && !ci.Common().IsInvoke() && len(ci.Common().Args) > 0 {
+				if callee := ci.Common().StaticCallee(); callee != nil && callee.Signature.Recv() != nil && !c.inPkg(callee) {
+					if _, isPtr := ci.Common().Args[0].Type().Underlying().(*types.Pointer); isPtr {
+						v = ci.Common().Args[0] // a library method on a pointer receiver (e.g. (*bytes.Buffer).Bytes)
+					}
+				}
+			}
+			if v == nil {
+				return
+			}
+			ld, ok := v.(*ssa.UnOp)
+			if !ok || ld.Op != token.MUL {
+				return
+			}
+			if fa, ok := ld.X.(*ssa.FieldAddr); ok {
+				if _, isPtr := ld.Type().Underlying().(*types.Pointer); isPtr {
+					uses = append(uses, use{in, fa})
+				}
+			}
+		})
+		if len(uses) == 0 {
+			continue
+		}
+		eachInstr(f, func(in ssa.Instruction) {
+			call, ok := in.(*ssa.Call)
+			if !ok {
+				return
+			}
+			callee := call.Call.StaticCallee()
+			if callee == nil || !c.inPkg(callee) {
+				return
+			}
+			for _, u := range uses {
+				k := fieldKey(u.fa)
+				if !mayNil(callee, k, 0, map[*ssa.Function]bool{}) {
+					continue
+				}
+				nCalls++
+				// from the call, can the use be reached without a new non-nil store to the field or a nil test of it?
+				hit, path := reachFromE(call.Block(), instrIndex(call)+1, func(x ssa.Instruction) bool { return x == u.in }, func(x ssa.Instruction) bool {
+					st, ok := x.(*ssa.Store)
+					if !ok {
+						return false
+					}
+					fa2, ok := st.Addr.(*ssa.FieldAddr)
+					return ok && fieldKey(fa2) == k && !isNilConst(st.Val)
+				}, func(from, to *ssa.BasicBlock) bool {
+					for _, fc := range edgeFactsTo(from, to) {
+						op, x, y, okc := cmpFact(fc)
+						if !okc || op != token.NEQ || !isNilConst(y) {
+							continue
+						}
+						if ld, isLd := x.(*ssa.UnOp); isLd && ld.Op == token.MUL {
+							if fa2, isFA := ld.X.(*ssa.FieldAddr); isFA && fieldKey(fa2) == k {
+								return true
+							}
+						}
+					}
+					return false
+				})
+				if hit != nil {
+					nBad++
+					c.bad(fmt.Sprintf("%s/nil-after-call.%d", fname, nBad), c.ipos(u.in), "this pointer field can be set to nil by the call at "+c.ipos(call)+" ("+c.fnName(callee)+") and is dereferenced afterwards without a nil test or a new assignment", c.pathStr(path)...)
+				}
+			}
+		})
+	}
+	c.sites += nCalls
+	if nBad == 0 {
+		c.ok("nil-after-call/sites", "", fmt.Sprintf("%d (call, later use) pairs where the callee may clear the pointer field: each use is behind a new test or assignment", nCalls))
+	}
+}
